@@ -74,6 +74,11 @@ ALPHABET = [
     b'OK 01\t23',                                       # 20
     b'OK 0x1234abcd',                                   # 21
     b'OK ' + GUID + b' trailing',                       # 22
+    b'ok ' + GUID,                                      # 23 commands are case sensitive: junk
+    b'REJECTED ANONYMOUS',                              # 24
+    b'REJECTED KERBEROS_V4 SKEY',                       # 25
+    b' OK ' + GUID,                                     # 26 leading blank: junk
+    b'ERROR',                                           # 27
 ]
 PREF = [b'EXTERNAL', b'DBUS_COOKIE_SHA1', b'ANONYMOUS']
 KNOWN_CMDS = (b'REJECTED', b'OK', b'DATA', b'ERROR', b'AGREE_UNIX_FD')
@@ -300,7 +305,7 @@ def scenario(ctx):
         script = [ALPHABET[i] for i in pre['lines']]
     else:
         n = 1 + ds.choose(20)
-        w = [4, 4, 2, 3, 3, 1, 1, 1, 1, 1, 2, 1, 2, 1, 1, 1, 1, 1, 1, 1, 0.7, 0.7, 0.7]
+        w = [4, 4, 2, 3, 3, 1, 1, 1, 1, 1, 2, 1, 2, 1, 1, 1, 1, 1, 1, 1, 0.7, 0.7, 0.7, 0.7, 1, 1, 0.7, 1]
         script = [ALPHABET[ds.weighted(w)] for _ in range(n)]
     ctx.config.update(script=[s.decode('latin1') for s in script])
     todo = list(script)
